@@ -11,6 +11,8 @@ TREES = {
     "B": {"a": "y", "s/c": "y", "s/d": "x"},
     "S": {"a": "x"},                       # subset of A
     "N": {"s/c": "z", "n/m": "w"},
+    # sibling directories one of whose names extends the other's
+    "P": {"set1/a": "x", "set1.bak/b": "y", "zz.old/c": "w", "zz/d": "z"},
 }
 UNCACHED = b"user-edit-not-in-cache"
 
